@@ -90,6 +90,61 @@ func runC06(r *Run) {
 					return !perTarget
 				})
 				gated = len(e) > 0 && a.EveryPathTakes(st, e)
+				// the seen set remembers every validator counted so far: it only grows (Set of the
+				// tested index on the not-seen edge, or union with the target's signer set) and is
+				// never overwritten, cleared or shrunk while the targets are being summed
+				if gated {
+					seenShape := ""
+					for _, ifi := range func() []*ssa.If { _, x := a.IfEdges("@bitset.BitSet.Test($seen,$i)", false, nil); return x }() {
+						if c, ok := ifi.Cond.(*ssa.Call); ok {
+							seenShape = a.sh.Of(c.Call.Args[0]).String()
+						} else if u, ok := ifi.Cond.(*ssa.UnOp); ok {
+							if c, ok := u.X.(*ssa.Call); ok {
+								seenShape = a.sh.Of(c.Call.Args[0]).String()
+							}
+						}
+					}
+					adds, bad := 0, ""
+					a.Instrs(func(in ssa.Instruction) {
+						c, ok := in.(*ssa.Call)
+						if !ok || c.Call.StaticCallee() == nil || len(c.Call.Args) == 0 {
+							return
+						}
+						f := c.Call.StaticCallee()
+						if f.Signature.Recv() == nil || TypeName(f.Signature.Recv().Type()) != "bitset.BitSet" {
+							return
+						}
+						isRecv := a.sh.Of(c.Call.Args[0]).String() == seenShape
+						isArg := false
+						for _, arg := range c.Call.Args[1:] {
+							if a.sh.Of(arg).String() == seenShape {
+								isArg = true
+							}
+						}
+						switch {
+						case isRecv && (f.Name() == "Test" || f.Name() == "Count" || f.Name() == "Len" || f.Name() == "Any" || f.Name() == "None"):
+						case isRecv && f.Name() == "Set":
+							if a.EveryPathTakes(in, e) && inMapRangeLoop(in) {
+								adds++
+							} else {
+								bad = f.Name() + " outside the not-yet-counted edge at " + w.InstrPos(in)
+							}
+						case isRecv && f.Name() == "InPlaceUnion":
+							adds++
+						case isRecv && bitAdders[f.Name()]:
+							if inMapRangeLoop(in) {
+								bad = f.Name() + " at " + w.InstrPos(in)
+							}
+						case isArg && (f.Name() == "CopyFull" || f.Name() == "Copy"):
+							if inMapRangeLoop(in) {
+								bad = "overwritten by " + f.Name() + " at " + w.InstrPos(in)
+							}
+						}
+					})
+					if adds == 0 || bad != "" {
+						gated = false
+					}
+				}
 			}
 			r.Check(!inTargetLoop || gated, "C06.1", con+"(once-per-validator)", w.InstrPos(st),
 				"the total present power is accumulated inside the loop over vote targets without a first-seen test: a validator that signed k targets is counted k times")
@@ -143,7 +198,7 @@ func runC06(r *Run) {
 			con := fmt.Sprintf("%s#inplace-merge%d", FuncName(fn), i+1)
 			// paths on which the merge is known not to have added signatures need no recomputation
 			var noInc []Edge
-			for _, b := range fn.Blocks {
+			for _, b := range a.blocks() {
 				if len(b.Instrs) == 0 {
 					continue
 				}
